@@ -133,6 +133,27 @@ Definition range_tr (p : list (nat * list Z)) (c : option nat) : list pev * opti
     let '(e, c', f) := range_loop id false ps rest c in (PUse id :: e ++ [PUnuse id], c', f)  (* BTree_maxminKey: err / normal exit *)
   end.
 
+(* BTree_rangeSearch with both bounds given (keys / values / items (min, max)): the root stays pinned over BOTH
+   range-end searches; an unusable or failing low end leaves through `err`, a low end that finds nothing through
+   `empty` (no second search).  [lowfound]: the low-end search found a position.  The comparison of the two end
+   keys that follows when they lie in different buckets is made on references the routine owns, with only the
+   root pinned; it involves no argument key and is not part of the trace. *)
+Definition range2_tr (p1 p2 : list (nat * list Z)) (lowfound : bool) (c : option nat) : list pev * option nat * bool :=
+  match p1 with
+  | [] => ([], c, false)
+  | (id, ps) :: rest =>
+    let '(e1, c1, f1) := range_loop id false ps rest c in
+    if f1 then (PUse id :: e1 ++ [PUnuse id], c1, true)                    (* rc < 0: goto err *)
+    else if lowfound then
+      match p2 with
+      | (_, ps2) :: rest2 =>                                                (* the same root *)
+        let '(e2, c2, f2) := range_loop id false ps2 rest2 c1 in
+        (PUse id :: e1 ++ e2 ++ [PUnuse id], c2, f2)
+      | [] => (PUse id :: e1 ++ [PUnuse id], c1, false)
+      end
+    else (PUse id :: e1 ++ [PUnuse id], c1, false)                          (* goto empty *)
+  end.
+
 Definition pin_trace (d : disc) (p : list (nat * list Z)) (c : option nat) : list pev * option nat * bool :=
   match d with DGet => get_tr p c | DSet => set_tr p c | DRange => range_tr p c end.
 
@@ -224,5 +245,19 @@ Definition pincase_ok (c : wpincase) : bool :=
   match c with
   | PINC t d sc k complete obs =>
     let m := model_obs t d sc k in
+    if complete then obs_eqb (collapse_obs obs) m else obs_prefixb (collapse_obs obs) m
+  end.
+
+(* keys(k1, k2) on a tree: [lowfound] is decided by the contents (C02: the low end is found iff some key >= k1) *)
+Inductive wpincase2 := PINC2 (t : wtr) (k1 k2 : Z) (complete : bool) (obs : list (Z * list nat)).
+Definition model_obs2 (t : wtr) (k1 k2 : Z) : list (Z * list nat) :=
+  let tr0 := fst (number t 0%nat) in
+  let lowfound := existsb (fun kv => k1 <=? fst kv) (contents Z tr0) in
+  let '(tr, _, _) := range2_tr (path_probes Z false tr0 k1) (path_probes Z false tr0 k2) lowfound None in
+  collapse_obs (map (fun o => match o with (x, _, pins) => (x, sort_nat pins) end) (observe tr [])).
+Definition pincase2_ok (c : wpincase2) : bool :=
+  match c with
+  | PINC2 t k1 k2 complete obs =>
+    let m := model_obs2 t k1 k2 in
     if complete then obs_eqb (collapse_obs obs) m else obs_prefixb (collapse_obs obs) m
   end.
